@@ -250,6 +250,9 @@ def generate(tier, seed):
     for k in range(1, 13 if tier == "quick" else 41):
         for cmd in ("lint", "lint-file", "spdx", "lint-pool"):
             cases.append({"kind": "touch-vanish", "k": k, "cmd": cmd, "dir": k % 3 == 0})
+    for k in range(1, 9 if tier == "quick" else 25):
+        for cmd in ("lint", "spdx", "lint-pool", "lint-pool"):
+            cases.append({"kind": "config-vanish", "k": k, "cmd": cmd, "which": ("dep5", "toml")[k % 2]})
     for k in range(12 if tier == "quick" else 200):
         cases.append({"kind": "licenses", "k": k})
     for k in range(8 if tier == "quick" else 100):
@@ -362,6 +365,27 @@ def run_case(case, ctx):
                 res.cell("touch-fault-fired")
             else:
                 res.cell("touch-fault-not-reached")
+        elif kind == "config-vanish":
+            # the configuration file itself disappears right after the K-th time the tool looks at it (a checkout switching
+            # branches under a running lint): whoever reads it again later - a pool worker - finds nothing, and says so or copes
+            from ..monitors import TouchFault
+
+            if case["which"] == "dep5":
+                (root / ".reuse").mkdir(exist_ok=True)
+                victim = root / ".reuse" / "dep5"
+                victim.write_text(VALID_DEP5)
+            else:
+                victim = root / "REUSE.toml"
+                victim.write_text(VALID_TOML)
+            for j in range(12):
+                (root / f"cv{j}.txt").write_text("no information of its own\n")
+            with TouchFault(victim, case["k"]) as tf:
+                r = run_command(case["cmd"], root)
+            fault = f"{case['which']} vanishes after touch {case['k']}"
+            judge(res, r, "grey", fault, case["cmd"], allowed=(0, 1, 2))
+            res.cell("config-vanish:" + ("fired" if tf.fired else "not-reached"))
+            if tf.fired:
+                res.sigs.add(short_hash("config-vanish", case["k"], case["cmd"], case["which"]))
         elif kind == "files":
             run_files(case, ctx, res, root)
         elif kind == "licenses":
